@@ -343,7 +343,14 @@ fn display_agrees(fs: &Memfs, snap: &rivia::verif::VerifSnapshot) -> Result<(), 
     }
     let sk: Vec<String> = snap.entries.iter().map(|e| e.key.to_string_lossy().into_owned()).collect();
     let sf: Vec<String> = snap.files.iter().map(|e| e.key.to_string_lossy().into_owned()).collect();
-    // names with newlines never occur in the namespace, so line parsing is exact
+    // line parsing is exact unless a name holds a newline or the arrow Display prints
+    let odd = |p: &std::path::Path| {
+        let t = p.to_string_lossy();
+        t.contains('\n') || t.contains(" -> ")
+    };
+    if snap.entries.iter().any(|e| odd(&e.key) || odd(&e.alt) || odd(&e.rel)) {
+        return Ok(());
+    }
     if keys != sk {
         return Err(format!("entry keys differ: display {:?} hook {:?}", keys, sk));
     }
